@@ -219,12 +219,24 @@ def run(ctx):
             modelt = make_model(space, psi, None)
             modelt.special["d"] = lambda m, k, b, up, lo: \
                 dvec[(up or lo)[0]] % P
-        spaces = [(cls[0], o) for o in range(3)]
+        spaces = [(cls[0], o, "same") for o in range(3)]
         if len(cls) > 1:
-            spaces += [(cls[1], 0), (cls[1], 1)]
-        for sp, order in spaces:
+            spaces += [(cls[1], 0, "same"), (cls[1], 1, "same")]
+        # mixed left/right variants: the transition moment of the RIGHT
+        # intermediate states with the default operator string
+        other = {"pp": "ip", "ip": "pp", "ea": "pp"}.get(variant)
+        prop_mixed = None
+        if other is not None:
+            prop_mixed = adcgen.Properties(
+                adcgen.IntermediateStates(gs, other), isr)
+            spaces += [(cls[0], o, "mixed-right") for o in range(3)]
+        for sp, order, which in spaces:
             try:
-                expr = prop.trans_moment_space(order, sp)
+                if which == "same":
+                    expr = prop.trans_moment_space(order, sp)
+                else:
+                    expr = prop_mixed.trans_moment_space(order, sp,
+                                                         lr_isr="right")
             except Exception as ex:
                 ctx.violation(f"C05:transmom-exception:{variant}:{sp}:{order}",
                               f"trans_moment_space raised {ex!r}", {}, False)
@@ -240,15 +252,16 @@ def run(ctx):
             g1 = factorial(n1["occ"]) * factorial(n1["virt"])
             want = tot[order] * sqrt_mod(g1) % P
             ok = val == want
-            ctx.case(key=("transmom", variant, sp, order, space.seed),
+            ctx.case(key=("transmom", variant, sp, order, which, space.seed),
                      nontrivial=order >= 1 or sp != cls[0],
                      sample={"variant": variant, "space": sp, "order": order,
                              "value_mod_P": val},
                      kind=f"transmom:{variant}:{sp}")
             if not ctx.obligation(f"{variant} transition moment {sp} order "
-                                  f"{order}", ok):
+                                  f"{order} ({which})", ok):
                 ctx.violation(
-                    f"C05:trans_moment:{variant}:{sp}:order{order}",
+                    f"C05:trans_moment:{variant}:{sp}:order{order}"
+                    + ("" if which == "same" else ":" + which),
                     "derived transition moment contribution differs from "
                     "the explicit <I|O|Psi0> contracted with the amplitude "
                     "vector",
